@@ -129,6 +129,15 @@ def fam_merge_extend(b):
                            f'(_ BitVec {w + k1 + k2 + 1})')
         # mixed nesting must not be merged into one extension
         for k1 in range(0, 3):
+            for k0 in range(0, 3):
+                yield (d, f'((_ sign_extend {k1}) ((_ zero_extend {k0}) x))',
+                       f'(_ BitVec {w + k1 + k0})')
+                yield (d, f'((_ zero_extend {k1}) ((_ sign_extend {k0}) x))',
+                       f'(_ BitVec {w + k1 + k0})')
+                yield (d, f'((_ sign_extend {k1}) ((_ sign_extend 1) '
+                          f'((_ zero_extend {k0}) x)))',
+                       f'(_ BitVec {w + k1 + k0 + 1})')
+        for k1 in range(0, 3):
             for k2 in range(0, 3):
                 yield (d, f'((_ zero_extend {k1}) ((_ zero_extend {k2}) '
                           f'((_ sign_extend 1) x)))',
